@@ -113,6 +113,48 @@ open EPV.Cmp
 def outOfR : R → Out
   | .ok true => .t | .ok false => .f | .error e => .err e
 
+/-- the `any` loop always returns one of the outcomes that the "exists a pair" semantics with
+errors permits (XPath 3.1 §3.7.2, §2.3.4), computed from the same pair function -/
+theorem anyPairs_in_allowed (f : Atom → Atom → R) (ps : List (Atom × Atom))
+    (hs : ∀ p ∈ ps, f p.1 p.2 ≠ .error .unsupported) :
+    ∃ allowed, allowedOfPairs (ps.map fun p => f p.1 p.2) = some allowed ∧
+      outOfR (anyPairs f ps) ∈ allowed := by
+  unfold allowedOfPairs
+  split
+  · rename_i h
+    exfalso
+    rw [List.any_eq_true] at h
+    obtain ⟨r, hr, hm⟩ := h
+    obtain ⟨p, hp, rfl⟩ := List.mem_map.mp hr
+    have := hs p hp
+    unfold isUnsupportedR at hm
+    split at hm <;> simp_all
+  · refine ⟨_, rfl, ?_⟩
+    show outOfR (anyPairs f ps) ∈ _
+    cases hr : anyPairs f ps with
+    | ok v =>
+      cases v with
+      | true =>
+        obtain ⟨p, hp, hf⟩ := anyPairs_true hr
+        have : (ps.map fun p => f p.1 p.2).any isTrueR = true := by
+          rw [List.any_eq_true]
+          exact ⟨f p.1 p.2, List.mem_map.mpr ⟨p, hp, rfl⟩, by simp [hf, isTrueR]⟩
+        rw [if_pos this]
+        simp [outOfR]
+      | false =>
+        have hall := anyPairs_false.mp hr
+        have : (ps.map fun p => f p.1 p.2).all isFalseR = true := by
+          rw [List.all_eq_true]
+          intro r hr'
+          obtain ⟨p, hp, rfl⟩ := List.mem_map.mp hr'
+          simp [hall p hp, isFalseR]
+        rw [if_pos this]
+        simp [outOfR]
+    | error e =>
+      obtain ⟨p, hp, hf⟩ := anyPairs_error hr
+      simp only [outOfR, List.mem_append, List.mem_filterMap]
+      refine Or.inr ⟨f p.1 p.2, List.mem_map.mpr ⟨p, hp, rfl⟩, by simp [hf, errOutR]⟩
+
 def outOfOR : Except Err (Option Bool) → Out
   | .ok (some true) => .t | .ok (some false) => .f | .ok none => .empty | .error e => .err e
 
